@@ -1,7 +1,490 @@
-//! C13 — not implemented yet.
-use vmon::report::Args;
+//! C13 — compaction never changes table contents.
+//!
+//! Tables made of many small and partially deleted fragments (appends with tiny files, deletes,
+//! updates, upserts), optionally a btree / bitmap index on `k` that covers only part of the
+//! fragments; then compaction rounds with random `CompactionOptions` (materialise on/off and
+//! threshold, batch size, byte limit, `defer_index_remap`) either through `compact_files` or
+//! through `plan_compaction` -> `CompactionTask::execute` -> `commit_compaction` of random subsets
+//! in random order. Before/after each round: multiset of rows, `count_rows`, with stable row ids the
+//! map id -> (`_rowid`, created-at, last-updated), and a fixed battery of indexed queries.
 
-pub fn run(_args: &Args) -> i32 {
-    eprintln!("HARNESS-ERROR C13 not implemented");
-    2
+use futures::TryStreamExt;
+use lance::Dataset;
+use serde_json::json;
+use std::collections::BTreeMap;
+use vmon::prng::{fnv_str, Rng};
+use vmon::report::{Args, Report};
+use vmon::table::render_row;
+
+use crate::hist::{check_contents, observe, Finding, Hist, HistCfg, IdxKind, Model, Obs, Op, Outcome};
+use crate::util::{guard, install_quiet_panic_hook, run_parallel, selftest_requested, Fail, Histo};
+
+#[derive(Clone, Debug)]
+pub struct Snap {
+    pub obs: Obs,
+    pub count: usize,
+    /// (query, sorted ids, plan used the scalar index)
+    pub queries: Vec<(String, Vec<i64>, bool)>,
+}
+
+pub fn battery() -> Vec<String> {
+    vec![
+        "k = 0".into(),
+        "k = 3".into(),
+        "k = 11".into(),
+        "k = -2".into(),
+        "k < 2".into(),
+        "k >= 7".into(),
+        "k > -1 AND k <= 4".into(),
+        "k IN (1, 5, 9)".into(),
+        "k BETWEEN 2 AND 6".into(),
+        "k = 4 AND id % 2 = 0".into(),
+        "k IS NULL".into(),
+    ]
+}
+
+async fn query_ids(ds: &Dataset, q: &str) -> lance::Result<(Vec<i64>, bool)> {
+    let mut s = ds.scan();
+    s.filter(q)?;
+    s.project(&["id"])?;
+    let plan = s.explain_plan(false).await.unwrap_or_default();
+    let used = plan.contains("ScalarIndexQuery") || plan.contains("MaterializeIndex");
+    let bs: Vec<arrow_array::RecordBatch> = s.try_into_stream().await?.try_collect().await?;
+    let mut ids = vec![];
+    for b in &bs {
+        let a = b
+            .column_by_name("id")
+            .and_then(|c| c.as_any().downcast_ref::<arrow_array::Int64Array>().cloned());
+        if let Some(a) = a {
+            ids.extend(a.values().iter().copied());
+        }
+    }
+    ids.sort();
+    Ok((ids, used))
+}
+
+pub async fn snapshot(ds: &Dataset, stable: bool, with_queries: bool) -> Result<Snap, Fail> {
+    let obs = guard(observe(ds, stable)).await?;
+    let count = guard(ds.count_rows(None)).await?;
+    let mut queries = vec![];
+    if with_queries {
+        for q in battery() {
+            let (ids, used) = guard(query_ids(ds, &q)).await?;
+            queries.push((q, ids, used));
+        }
+    }
+    Ok(Snap { obs, count, queries })
+}
+
+/// The deciding oracle: pure function of (snapshot before, snapshot after, model).
+pub fn oracle(before: &Snap, after: &Snap, model: &Model, stable: bool, what: &str) -> Vec<Finding> {
+    let mut out = vec![];
+    // the table still equals the model (compaction has no row-level effect)
+    out.extend(check_contents(model, &after.obs, what));
+    // multiset of rows before == after
+    let b = before.obs.by_id();
+    let a = after.obs.by_id();
+    if after.obs.rows.len() != a.len() {
+        out.push(Finding::new(
+            format!("duplicate-rows-after-{what}"),
+            format!("{} rows but {} distinct ids after compaction", after.obs.rows.len(), a.len()),
+            json!({}),
+        ));
+    }
+    let lost: Vec<i64> = b.keys().filter(|k| !a.contains_key(k)).copied().collect();
+    let gained: Vec<i64> = a.keys().filter(|k| !b.contains_key(k)).copied().collect();
+    if !lost.is_empty() {
+        out.push(Finding::new(
+            format!("rows-lost-by-{what}"),
+            format!("{} rows visible before compaction are gone", lost.len()),
+            json!({"ids": lost.iter().take(20).collect::<Vec<_>>()}),
+        ));
+    }
+    if !gained.is_empty() {
+        out.push(Finding::new(
+            format!("rows-resurrected-by-{what}"),
+            format!("{} rows not visible before compaction appear after it", gained.len()),
+            json!({"ids": gained.iter().take(20).collect::<Vec<_>>()}),
+        ));
+    }
+    let mut rowid_changed = vec![];
+    let mut created_changed = vec![];
+    let mut updated_changed = vec![];
+    for (id, rb) in &b {
+        let Some(ra) = a.get(id) else { continue };
+        if rb.cells != ra.cells {
+            out.push(Finding::new(
+                format!("row-values-changed-by-{what}"),
+                format!("id {id} has different values after compaction"),
+                json!({"id": id, "before": render_row(&rb.cells), "after": render_row(&ra.cells)}),
+            ));
+            break;
+        }
+        if stable {
+            if rb.rowid != ra.rowid {
+                rowid_changed.push((*id, rb.rowid, ra.rowid));
+            }
+            if rb.created != ra.created {
+                created_changed.push((*id, rb.created, ra.created));
+            }
+            if rb.updated != ra.updated {
+                updated_changed.push((*id, rb.updated, ra.updated));
+            }
+        }
+    }
+    if let Some(x) = rowid_changed.first() {
+        out.push(Finding::new(
+            format!("rowid-changed-by-{what}"),
+            format!("{} rows changed _rowid; e.g. id {} {:?} -> {:?}", rowid_changed.len(), x.0, x.1, x.2),
+            json!({"examples": rowid_changed.iter().take(5).map(|x| json!([x.0, x.1, x.2])).collect::<Vec<_>>()}),
+        ));
+    }
+    if let Some(x) = created_changed.first() {
+        out.push(Finding::new(
+            format!("created-at-version-changed-by-{what}"),
+            format!(
+                "{} rows changed _row_created_at_version; e.g. id {} {:?} -> {:?}",
+                created_changed.len(),
+                x.0,
+                x.1,
+                x.2
+            ),
+            json!({"examples": created_changed.iter().take(5).map(|x| json!([x.0, x.1, x.2])).collect::<Vec<_>>()}),
+        ));
+    }
+    if let Some(x) = updated_changed.first() {
+        out.push(Finding::new(
+            format!("last-updated-version-changed-by-{what}"),
+            format!(
+                "{} rows changed _row_last_updated_at_version; e.g. id {} {:?} -> {:?}",
+                updated_changed.len(),
+                x.0,
+                x.1,
+                x.2
+            ),
+            json!({"examples": updated_changed.iter().take(5).map(|x| json!([x.0, x.1, x.2])).collect::<Vec<_>>()}),
+        ));
+    }
+    if before.count != after.count {
+        out.push(Finding::new(
+            format!("count-rows-changed-by-{what}"),
+            format!("count_rows {} -> {}", before.count, after.count),
+            json!({}),
+        ));
+    }
+    // row addresses must stay unique
+    let mut addrs: BTreeMap<u64, i64> = BTreeMap::new();
+    for r in &after.obs.rows {
+        if let Some(ad) = r.rowaddr {
+            if let Some(o) = addrs.insert(ad, r.id) {
+                out.push(Finding::new(
+                    format!("rowaddr-shared-after-{what}"),
+                    format!("_rowaddr {ad} reported for ids {o} and {}", r.id),
+                    json!({}),
+                ));
+                break;
+            }
+        }
+    }
+    // indexed queries return the same rows
+    for ((q, ib, _), (_, ia, used)) in before.queries.iter().zip(&after.queries) {
+        if ib != ia {
+            let lost: Vec<&i64> = ib.iter().filter(|x| !ia.contains(x)).take(10).collect();
+            let extra: Vec<&i64> = ia.iter().filter(|x| !ib.contains(x)).take(10).collect();
+            out.push(Finding::new(
+                format!(
+                    "index-query-answer-changed-by-{what}{}",
+                    if lost.is_empty() { "-extra-rows" } else if extra.is_empty() { "-lost-rows" } else { "" }
+                ),
+                format!("`{q}` returned {} ids before and {} after (index used after: {used})", ib.len(), ia.len()),
+                json!({"query": q, "lost": lost, "extra": extra, "index_used_after": used}),
+            ));
+            break;
+        }
+    }
+    out
+}
+
+struct Ctx<'a> {
+    report: &'a Report,
+    ops: &'a Histo,
+    diag: &'a Histo,
+    opts: &'a Histo,
+}
+
+const PRE: &[(u32, &str)] = &[
+    (4, "append"),
+    (4, "delete"),
+    (3, "update"),
+    (2, "upsert"),
+    (1, "partial_upsert"),
+    (1, "insert_only"),
+];
+
+fn corrupt(s: &mut Snap, stable: bool, rng: &mut Rng) -> bool {
+    if s.obs.rows.is_empty() {
+        s.count += 1;
+        return true;
+    }
+    let i = rng.usize_below(s.obs.rows.len());
+    match rng.below(5) {
+        0 => {
+            s.obs.rows.remove(i);
+            true
+        }
+        1 if stable => {
+            s.obs.rows[i].rowid = s.obs.rows[i].rowid.map(|x| x + 7);
+            true
+        }
+        2 if stable => {
+            s.obs.rows[i].created = s.obs.rows[i].created.map(|x| x + 1);
+            true
+        }
+        3 if stable => {
+            s.obs.rows[i].updated = s.obs.rows[i].updated.map(|x| x + 1);
+            true
+        }
+        _ => {
+            if let Some(q) = s.queries.iter_mut().find(|q| !q.1.is_empty()) {
+                q.1.pop();
+            } else {
+                s.count += 1;
+            }
+            true
+        }
+    }
+}
+
+async fn run_case(cx: &Ctx<'_>, seed: u64, idx: u64, thorough: bool, selftest: bool) -> (u64, u64) {
+    let mut rng = Rng::for_case(seed, idx);
+    let mut cfg = HistCfg::random(&mut rng, None);
+    cfg.initial_rows_per_file = *rng.pick(&[2usize, 3, 4, 5, 7]);
+    let mut h = match Hist::create(&mut rng, cfg.clone(), &format!("c13-{seed}-{idx}"), (idx % 4000) as usize + 1).await {
+        Ok(h) => h,
+        Err(e) => {
+            cx.report.harness_error(&format!("case {idx}: create failed: {}", e.brief()));
+            return (0, 0);
+        }
+    };
+    let stable = cfg.stable;
+    let with_index = rng.chance(2, 3);
+    let idx_kind = if rng.bool() { IdxKind::BTree } else { IdxKind::Bitmap };
+    let rounds = if thorough { rng.urange(1, 4) } else { rng.urange(1, 2) };
+    let (mut applied_c, mut detected_c) = (0u64, 0u64);
+    let mut nontrivial_rounds = 0u64;
+    let mut sig_parts: Vec<String> = vec![format!("{:?}|stable={stable}|idx={}", cfg.version, if with_index { format!("{idx_kind:?}") } else { "none".into() })];
+    let mut rows_compared = 0u64;
+    let mut queries_compared = 0u64;
+    let mut index_used = 0u64;
+    for round in 0..rounds {
+        // ---- build a layout of many small, partially deleted fragments
+        let n_pre = rng.urange(3, 8);
+        let index_at = if with_index && round == 0 { Some(rng.usize_below(n_pre)) } else { None };
+        for j in 0..n_pre {
+            if index_at == Some(j) {
+                let op = Op::CreateIndex { col: "k".into(), kind: idx_kind };
+                let out = h.apply(&mut rng, &op).await;
+                cx.ops.add(op.kind(), 1);
+                if let Outcome::Failed(f) | Outcome::Rejected(f) = out {
+                    cx.diag.add(&format!("create_index:{}", f.brief().chars().take(100).collect::<String>()), 1);
+                }
+            }
+            let op = h.gen_op(&mut rng, PRE);
+            let out = h.apply(&mut rng, &op).await;
+            cx.ops.add(op.kind(), 1);
+            match out {
+                Outcome::Rejected(f) => {
+                    cx.report.rejected();
+                    cx.diag.add(&format!("rejected:{}:{}", op.kind(), f.msg().chars().take(80).collect::<String>()), 1);
+                }
+                Outcome::Failed(f) => {
+                    cx.diag.add(&format!("failed:{}:{}", op.kind(), f.brief().chars().take(120).collect::<String>()), 1)
+                }
+                _ => {}
+            }
+        }
+        // ---- before
+        let before = match snapshot(&h.ds, stable, h.indexed.is_some()).await {
+            Ok(s) => s,
+            Err(e) => {
+                // reading the table before compaction fails: not C13's subject
+                cx.diag.add(&format!("snapshot-before-failed:{}", e.brief().chars().take(120).collect::<String>()), 1);
+                cx.report.inconclusive(&format!("case {idx}: snapshot before compaction failed: {}", e.brief()));
+                return (applied_c, detected_c);
+            }
+        };
+        let pre_findings = check_contents(&h.model, &before.obs, "history-before-compaction");
+        if !pre_findings.is_empty() {
+            // the table already differs from the model before compacting: report under its own
+            // signature (it is not caused by compaction) and stop this case
+            for f in pre_findings {
+                cx.report.violation(
+                    &f.sig,
+                    &f.what,
+                    json!({"seed": seed, "case": idx, "detail": f.detail, "history": h.log_json()}),
+                );
+            }
+            return (applied_c, detected_c);
+        }
+        let frags_before: Vec<u64> = h.ds.get_fragments().iter().map(|f| f.id() as u64).collect();
+        let deletions_before = h.ds.count_deleted_rows().await.unwrap_or(0);
+        // ---- compaction
+        let spec = h.gen_compact(&mut rng, true);
+        let op = Op::Compact(spec.clone());
+        let what = op.kind();
+        let out = h.apply(&mut rng, &op).await;
+        cx.ops.add(what, 1);
+        cx.opts.add(
+            &format!(
+                "mat={} defer={} dist={} batch={:?}",
+                spec.materialize_deletions && spec.threshold < 1.0,
+                spec.defer_index_remap,
+                spec.distributed.is_some(),
+                spec.batch_size
+            ),
+            1,
+        );
+        match &out {
+            Outcome::Rejected(f) | Outcome::Failed(f) => {
+                // a compaction that fails must not change anything either: fall through to the
+                // comparison, and count the failure
+                cx.diag.add(&format!("{what}:{}", f.brief().chars().take(140).collect::<String>()), 1);
+            }
+            _ => {}
+        }
+        let frags_after: Vec<u64> = h.ds.get_fragments().iter().map(|f| f.id() as u64).collect();
+        // ---- after (fresh session half of the time: nothing may depend on caches)
+        let ds_after = if rng.bool() {
+            match guard(h.actor.fresh_session().open(&h.uri)).await {
+                Ok(d) => d,
+                Err(e) => {
+                    cx.report.violation(
+                        &format!("table-unreadable-after-{what}"),
+                        "the table cannot be opened after compaction",
+                        json!({"seed": seed, "case": idx, "error": e.brief(), "history": h.log_json()}),
+                    );
+                    return (applied_c, detected_c);
+                }
+            }
+        } else {
+            h.ds.clone()
+        };
+        let mut after = match snapshot(&ds_after, stable, h.indexed.is_some()).await {
+            Ok(s) => s,
+            Err(e) => {
+                cx.report.violation(
+                    &format!("read-failed-after-{what}"),
+                    "scan / count / indexed query fails after compaction although it worked before",
+                    json!({"seed": seed, "case": idx, "error": e.brief(), "compaction": spec.brief(), "history": h.log_json()}),
+                );
+                return (applied_c, detected_c);
+            }
+        };
+        if selftest {
+            let mut crng = Rng::for_case(seed ^ 0xD00D, idx * 8 + round as u64);
+            if corrupt(&mut after, stable, &mut crng) {
+                applied_c += 1;
+                if !oracle(&before, &after, &h.model, stable, what).is_empty() {
+                    detected_c += 1;
+                }
+            }
+            continue;
+        }
+        let findings = oracle(&before, &after, &h.model, stable, what);
+        rows_compared += after.obs.rows.len() as u64;
+        queries_compared += after.queries.len() as u64;
+        index_used += after.queries.iter().filter(|q| q.2).count() as u64;
+        if !findings.is_empty() {
+            for f in findings {
+                let sig = format!(
+                    "{}{}{}",
+                    f.sig,
+                    if stable { "-stable-row-ids" } else { "" },
+                    if spec.defer_index_remap && f.sig.starts_with("index-query") { "-defer-remap" } else { "" }
+                );
+                cx.report.violation(
+                    &sig,
+                    &f.what,
+                    json!({"seed": seed, "case": idx, "round": round, "compaction": spec.brief(), "detail": f.detail,
+                           "fragments_before": frags_before, "fragments_after": frags_after, "history": h.log_json()}),
+                );
+            }
+            return (0, 0);
+        }
+        let order_kept = before.obs.rows.iter().map(|r| r.id).collect::<Vec<_>>()
+            == after.obs.rows.iter().map(|r| r.id).collect::<Vec<_>>();
+        cx.report.count(if order_kept { "rounds_order_preserved" } else { "rounds_order_changed" }, 1);
+        if frags_before != frags_after && !after.obs.rows.is_empty() {
+            nontrivial_rounds += 1;
+            sig_parts.push(format!(
+                "{}|{}->{}frags|del={}|{}",
+                spec.brief(),
+                frags_before.len(),
+                frags_after.len(),
+                deletions_before > 0,
+                after.obs.rows.len() / 8
+            ));
+        }
+    }
+    if selftest {
+        return (applied_c, detected_c);
+    }
+    cx.report.count("compaction_rounds_that_rewrote_fragments", nontrivial_rounds);
+    cx.report.count("rows_compared", rows_compared);
+    cx.report.count("index_queries_compared", queries_compared);
+    cx.report.count("index_queries_that_used_the_index", index_used);
+    let nontrivial = nontrivial_rounds > 0;
+    cx.report.case(if nontrivial { Some(fnv_str(&sig_parts.join("#"))) } else { None });
+    if nontrivial && cx.report.want_sample() {
+        cx.report.sample(json!({"case": idx, "history": h.log_json()}));
+    }
+    (0, 0)
+}
+
+pub fn run(args: &Args) -> i32 {
+    install_quiet_panic_hook();
+    let report = Report::new(
+        args,
+        "exploration",
+        "One case = a seeded table (stable row ids on/off, storage 2.0/2.1/2.2, files of 2-7 rows) + 3-8 random \
+         appends/deletes/updates/upserts per round (index on k created at a random point), then a compaction with random \
+         CompactionOptions through compact_files or plan/execute/commit of random task subsets in random order; snapshot \
+         before vs after: rows by id, count_rows, (stable) id->(_rowid, created, updated), 11 indexed queries. \
+         Non-trivial = the compaction replaced fragments of a non-empty table; distinct by (config, options, layout).",
+        (60, 900),
+    )
+    .with_min_nontrivial(args.tier.pick(40, 400));
+    let ops = Histo::default();
+    let diag = Histo::default();
+    let opts = Histo::default();
+    let cx = Ctx {
+        report: &report,
+        ops: &ops,
+        diag: &diag,
+        opts: &opts,
+    };
+    let selftest = selftest_requested(args);
+    let thorough = args.tier == vmon::report::Tier::Thorough;
+    let max_cases = if selftest { 60 } else { args.tier.pick(1_500, 40_000) };
+    let st = std::sync::Mutex::new((0u64, 0u64));
+    if let Some(i) = args.extra.get("case").and_then(|s| s.parse::<u64>().ok()) {
+        let rt = tokio::runtime::Builder::new_current_thread().enable_all().build().unwrap();
+        rt.block_on(run_case(&cx, args.seed, i, thorough, false));
+    } else {
+        run_parallel(&report, max_cases, 16, |i, rt| {
+            let r = rt.block_on(run_case(&cx, args.seed, i, thorough, selftest));
+            let mut g = st.lock().unwrap();
+            g.0 += r.0;
+            g.1 += r.1;
+        });
+    }
+    if selftest {
+        let g = st.lock().unwrap();
+        println!("SELFTEST C13 corruptions_applied={} detected={}", g.0, g.1);
+        return if g.0 > 0 && g.0 == g.1 { 0 } else { 2 };
+    }
+    report.set("ops_by_kind", ops.json());
+    report.set("compaction_options_seen", opts.json());
+    report.set("op_failures_and_rejections", diag.json());
+    report.finish()
 }
